@@ -183,6 +183,10 @@ class CallMixin:
                 return cell.refcls
             m = self.find_method(cell.refcls, name)
             if m is None:
+                if getattr(self, "spec_depth", 0) == 0 and getattr(self, "pure_depth", 0) == 0:
+                    # as for partial input objects (B15): a field the contract's shape does not describe is outside the
+                    # contract's reach, not an AttributeError of the program
+                    raise Unsupported(f"the code reads the instance field '{name}' of {cell.refcls.__name__}, which the contract's region shape does not describe")
                 raise PyRaise(ExcV(AttributeError, (name,)))
             return self._bind(m[0], m[1], base, cell.refcls)
         if isinstance(base, OldView):
